@@ -29,7 +29,7 @@ TEXT = {
         "note": "Trusted: the harness gradients and the stated rounding-error model. Terms are reached through the cell_tester friend name declared by the headers.",
     },
     "C20": {
-        "technique": "rapidcheck property-based testing against a reference model (long-double voxel index, brute-force neighbourhood, multiset of stored objects)",
+        "technique": "rapidcheck property-based testing against a reference model (long-double voxel index, brute-force neighbourhood, multiset of stored objects), including histories of re-dimensioning on the same grid object",
         "level": "Boxes whose extent is an exact multiple of the voxel size with points on the max faces/corners are produced by construction "
                  "in half of the cases, at micro and unit scale, near and far from the origin; every indexed point, every placement, "
                  "every neighbourhood and the full content are compared with the reference model under ASan. Found the out-of-range voxel "
@@ -125,14 +125,14 @@ TEXT = {
         "note": "Trusted: vtkparse.hpp and the harness's reading of 'alive when recorded' (see assumptions in the evidence).",
     },
     "C14": {
-        "technique": "rapidcheck property-based testing; metamorphic relation (translation) checked in lock-step on real solvers with a noise-calibrated tolerance and a tie filter for discrete decisions",
+        "technique": "rapidcheck property-based testing; metamorphic relation (translation) checked in lock-step on real solvers with a noise-calibrated tolerance and a tie filter for discrete decisions, and on single real divisions of cells in the solver's stale-cache state",
         "level": "Whole trajectories of generated tissues are compared node by node with their translated twins after every iteration, together "
                  "with connectivity, cell count, volumes and pressures; the tolerance is measured per case from two noise-perturbed runs. "
                  "Exploration over six translation classes including voxel-aligned shifts and origin crossings.",
         "note": "Trusted: the tolerance model (see assumptions). Chaotic cases (noise amplified beyond the cap) are reported as inconclusive, not as violations.",
     },
     "C15": {
-        "technique": "rapidcheck property-based testing over thread counts and generated schedules (sleep plans at guarded scheduling points); differential against the single-threaded run; overlap detector on guarded list-access events; fault injection at generated list positions",
+        "technique": "rapidcheck property-based testing over thread counts and generated schedules (sleep plans at guarded scheduling points); differential (state, statistics and every written mesh file; each run in a freshly forked process) against the single-threaded run; overlap detector on guarded list-access events; fault injection at generated list positions",
         "level": "Bit-exact differential between thread counts and schedules on whole runs, a sound detector for 'list read while another thread "
                  "resizes it' whose window is held open for milliseconds so that generated schedules hit it, and exception transport "
                  "checked on the handler and its two real users. Found the resize-during-read in cell_divider::run (fixed). Sampling of schedules, not enumeration.",
